@@ -1835,7 +1835,7 @@ func (c *checker) run() {
 			"plus a 64-shard program over its complete cache run k times (reads all shards from files, no upstream call), and a free-running -race pass probing complete caches of 1..256 shards; " +
 			"plus every subset again with files of generation 0 under an input of generation 1 (values +1000), so that rows read from files and rows computed differ; " +
 			"non-trivial = every armed fault actually fired (vfs Fired; the failing source was actually asked), counted as distinct (program, executor, subset, label class, mode)",
-		"programs":                  names,
+		"program_names":             names,
 		"executors":                 executors,
 		"runs_executed":             c.runs,
 		"fault_cases":               c.faultRun,
